@@ -62,9 +62,12 @@ Print Assumptions T04_right_credentials_accepted.
 
 (* every spelling of the local machine is classified as such: seed names and hosts-file
    aliases in any case, loopback and unspecified literals of both families *)
-Theorem T04_localhost_complete : forall aliases host,
-  target_is_local aliases host = true <-> is_localhost aliases host = true.
-Proof. exact (fun a h => conj (localhost_complete a h ob_localhost_checks_unspecified) (localhost_sound a h)). Qed.
+Theorem T04_localhost_complete : forall idna aliases host,
+  target_is_local idna aliases host = true <-> is_localhost idna aliases host = true.
+Proof.
+  exact (fun i a h => conj (localhost_complete i a h (proj1 ob_localhost_maps_idna) ob_localhost_strips_zone ob_localhost_checks_unspecified)
+                           (localhost_sound i a h (proj1 ob_localhost_maps_idna) ob_localhost_strips_zone)).
+Qed.
 Print Assumptions T04_localhost_complete.
 
 (* requests that pass every check are forwarded *)
@@ -83,15 +86,17 @@ Print Assumptions T04_allow_forwarded.
 Example T04_example :
   let cfg := {| c_name := b "p"; c_timeframe := [{| tf_day := 2; tf_start := 9; tf_end := 17 |}];
                 c_basic := Some (b "user", b "pa:ss"); c_deny_localhost := true;
-                c_deny := Some (fun h => str_eqb h (b "evil.test")); c_aliases := [b "vm"]; c_mitm := false |} in
+                c_deny := Some (fun h => str_eqb h (b "evil.test")); c_aliases := [b "vm"]; c_mitm := false;
+                c_idna := fun h => h |} in
   let e := {| now_day := 2; now_hour := 10 |} in
   let good := [(b "Proxy-Authorization", [b "bAsIc dXNlcjpwYTpzcw=="])] in
   verdict_of cfg e {| r_method := b "GET"; r_host := b "example.test:80"; r_hdr := good |} = Allow /\
   verdict_of cfg e {| r_method := b "CONNECT"; r_host := b "[::ffff:0.0.0.0]:443"; r_hdr := good |} = Deny CLocal /\
   verdict_of cfg e {| r_method := b "GET"; r_host := b "VM"; r_hdr := good |} = Deny CLocal /\
+  verdict_of cfg e {| r_method := b "GET"; r_host := b "[::ffff:127.0.0.1%lo]:80"; r_hdr := good |} = Deny CLocal /\
   verdict_of cfg e {| r_method := b "GET"; r_host := b "evil.test"; r_hdr := good |} = Deny CDeny /\
   verdict_of cfg e {| r_method := b "GET"; r_host := b "example.test";
                       r_hdr := [(b "Proxy-Authorization", [b "Basic dXNlcjpwYQ=="])] |} = Deny CAuth /\
   verdict_of cfg {| now_day := 2; now_hour := 17 |}
              {| r_method := b "GET"; r_host := b "example.test"; r_hdr := good |} = Deny CTime.
-Proof. exact (conj eq_refl (conj eq_refl (conj eq_refl (conj eq_refl (conj eq_refl eq_refl))))). Qed.
+Proof. exact (conj eq_refl (conj eq_refl (conj eq_refl (conj eq_refl (conj eq_refl (conj eq_refl eq_refl)))))). Qed.
